@@ -94,6 +94,30 @@ impl Write for LogWriter {
         self.out.extend_from_slice(&buf[..n]);
         Ok(n)
     }
+    /// A native vectored write, as sockets, files and pipes have one: takes the
+    /// slices in order; a partial writer stops about half-way through the total,
+    /// which may be anywhere inside any of the slices.
+    fn write_vectored(&mut self, bufs: &[io::IoSlice<'_>]) -> io::Result<usize> {
+        let k = self.calls;
+        self.calls += 1;
+        if let Some((at, kind)) = self.fail_at {
+            if at == k {
+                return Err(io::Error::new(kind, "injected write failure"));
+            }
+        }
+        let total: usize = bufs.iter().map(|b| b.len()).sum();
+        let mut take = if self.partial && total > 1 { (total + 1) / 2 } else { total };
+        let n = take;
+        for b in bufs {
+            let m = take.min(b.len());
+            self.out.extend_from_slice(&b[..m]);
+            take -= m;
+            if take == 0 {
+                break;
+            }
+        }
+        Ok(n)
+    }
     fn flush(&mut self) -> io::Result<()> {
         self.flushes += 1;
         Ok(())
